@@ -155,3 +155,72 @@ func execC10Stall(a []string) string {
 }
 
 func init() { executors["c10.stall"] = execC10Stall }
+
+// c10.lateadd <rounds>: a handler is registered by another goroutine while the end point dispatches a message that a
+// one-shot handler takes (and leaves with); the new handler receives every later message its filter selects, in order.
+// (The first handler's filter tells the other goroutine that the dispatch has begun and gives it thirty milliseconds.)
+func execC10LateAdd(a []string) string {
+	log.SetOutput(ioutil.Discard)
+	rounds := 3
+	fmt.Sscanf(a[0], "%d", &rounds)
+	for r := 0; r < rounds; r++ {
+		x, y := qnet.Pipe()
+		began := make(chan struct{}, 1)
+		registered := make(chan struct{})
+		first := true
+		y.MakeHandler(func(h *qnet.Header) (bool, bool) {
+			if h.ID == 1 && first {
+				first = false
+				began <- struct{}{}
+				select {
+				case <-registered:
+				case <-time.After(30 * time.Millisecond):
+				}
+			}
+			return false, true
+		}, make(chan *qnet.Message, 1), nil)
+		once, _ := y.ReceiveAny() // a one-shot handler: takes message 1 and leaves
+		late := make(chan *qnet.Message, 8)
+		go func() {
+			<-began
+			y.MakeHandler(func(h *qnet.Header) (bool, bool) { return h.ID >= 2, true }, late, nil)
+			close(registered)
+		}()
+		send := func(id uint32) error {
+			return x.Send(qnet.NewMessage(qnet.NewHeader(qnet.Post, 1, 1, 1, id), []byte{byte(id)}))
+		}
+		if send(1) != nil {
+			return "fail:send"
+		}
+		select {
+		case <-once:
+		case <-time.After(3 * time.Second):
+			return "fail:one-shot the one-shot handler did not get its message"
+		}
+		select {
+		case <-registered:
+		case <-time.After(3 * time.Second):
+			return "fail:stuck a registration during a dispatch does not return"
+		}
+		for id := uint32(2); id <= 4; id++ {
+			if send(id) != nil {
+				return "fail:send"
+			}
+		}
+		for id := uint32(2); id <= 4; id++ {
+			select {
+			case m := <-late:
+				if m.Header.ID != id {
+					return fmt.Sprintf("fail:order the handler registered during a dispatch got message %d for %d", m.Header.ID, id)
+				}
+			case <-time.After(3 * time.Second):
+				return fmt.Sprintf("fail:lost the handler registered during a dispatch never received message %d (round %d)", id, r)
+			}
+		}
+		x.Close()
+		y.Close()
+	}
+	return "ok"
+}
+
+func init() { executors["c10.lateadd"] = execC10LateAdd }
